@@ -1,7 +1,16 @@
-(* C06 — Every API call terminates with exactly one outcome. Statements only. PARTIAL: the theorems
-   cover the two completion rules; "exactly one outcome, nothing left behind" for whole calls under loss,
-   duplication and overlap is checked on workloads of a real node (KQuiet cases). *)
-From MLV Require Import model.Bytes model.Inflight model.PutQuery proofs.InflightProofs proofs.PutQueryProofs.
+(* C06 — Every API call terminates with exactly one outcome. Statements only.
+   Two layers: (1) the completion rules of a lookup and of the store phase of a put (Inflight.v, PutQuery.v);
+   (2) the per-call bookkeeping of the node (Calls.v: which lookups and puts are active, who is parked on
+   what, who is told what in which tick), for every history of API calls and ticks and every choice of what
+   the ticks find done.  (2) says that a caller is never told twice, is told in the very tick that finds what
+   it waits on done, and always waits on something active; (1) says that what it waits on is found done at the
+   latest one request timeout after the last request.  What is not a theorem: that the loop keeps iterating
+   (threads, flume, the OS), and the link between 'a lookup has no request in flight' and the tick input
+   [dget] / between PutQuery's outcome and [dput] - those are read off the real node at every tick by the
+   correspondence run (KCalls cases). *)
+From Coq Require Import Permutation.
+From MLV Require Import model.Bytes model.Inflight model.PutQuery model.Calls proofs.InflightProofs proofs.PutQueryProofs
+  proofs.CallsProofs.
 Open Scope N_scope.
 
 (* a lookup is done as soon as none of its requests is in flight: every request older than the request
@@ -22,7 +31,87 @@ Proof. exact expiry_terminates. Qed.
 Example C06_put_without_tokens_fails : forall mutable evs, run_put mutable [] evs = Some (OutErr ENoClosestNodes, 0).
 Proof. reflexivity. Qed.
 
+(* ---- the per-call bookkeeping ---- *)
+(* the invariant holds in every reachable state, whatever the ticks find done *)
+Theorem C06_bookkeeping_invariant : forall evs, Inv (fst (crun cstate0 evs)).
+Proof. intros evs. apply inv_run. exact inv0. Qed.
+
+(* callers are distinct (one channel per call): along every history nobody is told twice, nobody who was
+   told is still parked, and whoever called is parked or was told *)
+Theorem C06_at_most_one_outcome : forall evs, NoDup (run_callers evs) ->
+  let '(s, outs) := crun cstate0 evs in
+  NoDup (parked s ++ map oc_caller outs) /\ (forall c, In c (run_callers evs) <-> In c (parked s) \/ In c (map oc_caller outs)).
+Proof. exact at_most_one_outcome. Qed.
+
+(* once no lookup and no put is left, every caller of the history has been told exactly once (C20: and
+   nobody is parked) *)
+Theorem C06_exactly_one_outcome_when_quiet : forall evs, NoDup (run_callers evs) ->
+  let '(s, outs) := crun cstate0 evs in
+  lookups s = [] -> puts s = [] -> Permutation (run_callers evs) (map oc_caller outs).
+Proof. exact exactly_one_outcome_when_quiet. Qed.
+
+Theorem C06_quiescent_nobody_parked : forall s, Inv s -> lookups s = [] -> puts s = [] -> parked s = [].
+Proof. exact quiescent_nobody_parked. Qed.
+
+(* progress: the tick that finds a lookup done tells every get caller parked on it; the tick that finds a put
+   done tells every caller parked on it; the tick that finds the lookup of a waiting put done starts the put or
+   tells its callers; with no lookup left every remaining put has started *)
+Theorem C06_tick_tells_get_callers : forall s dput dget t c, In (t, c) (gsend s) -> In t (map fst dget) ->
+  In (OGet c) (snd (step_tick s dput dget)).
+Proof. exact tick_tells_get_callers. Qed.
+
+Theorem C06_tick_tells_put_callers : forall s dput dget t c, In (t, c) (psend s) -> In t (map fst dput) ->
+  exists r, In (OPut c r) (snd (step_tick s dput dget)).
+Proof. exact tick_tells_put_callers. Qed.
+
+Theorem C06_waiting_put_starts_or_fails : forall s dput dget p c, Inv s -> In p (puts s) -> pe_started p = false ->
+  In (pe_target p, c) (psend s) -> In (pe_target p) (map fst dget) ->
+  (exists p', In p' (puts (fst (step_tick s dput dget))) /\ pe_target p' = pe_target p /\ pe_started p' = true)
+  \/ exists r, In (OPut c r) (snd (step_tick s dput dget)).
+Proof. exact tick_starts_or_fails_waiting_put. Qed.
+
+Theorem C06_no_lookup_all_puts_started : forall s, Inv s -> lookups s = [] -> forall p, In p (puts s) -> pe_started p = true.
+Proof. exact no_lookup_all_puts_started. Qed.
+
+(* an API call is answered at once (a mutable put refused for a local conflict) or leaves its caller parked
+   on something that is now active *)
+Theorem C06_put_told_or_parked : forall s t c m cached,
+  (exists e, snd (step_put s t c m cached) = [OPut c (OutErr (EConcurrency e))] /\ fst (step_put s t c m cached) = s)
+  \/ (snd (step_put s t c m cached) = [] /\ In (t, c) (psend (fst (step_put s t c m cached)))
+      /\ exists p, In p (puts (fst (step_put s t c m cached))) /\ pe_target p = t /\ pe_started p = cached).
+Proof. exact put_told_or_parked. Qed.
+
+Theorem C06_get_parks_on_active_lookup : forall s t c, In (t, c) (gsend (step_get s t c)) /\ In t (lookups (step_get s t c)).
+Proof. exact get_parks_on_active_lookup. Qed.
+
+(* the boolean evaluated on the node's own state at every step of the correspondence run is this invariant *)
+Theorem C06_checked_invariant_is_the_invariant : forall s, inv_b s = true <-> Inv s.
+Proof. exact inv_b_Inv. Qed.
+
+(* non-vacuity: a history with a get, a put waiting for its lookup, a tick that finds the lookup done without
+   tokens (the put fails), and a mutable put refused at once *)
+Example C06_history_example :
+  let m1 := {| mp_sig := [1]; mp_seq := 5%Z; mp_cas := None |} in
+  let m2 := {| mp_sig := [2]; mp_seq := 4%Z; mp_cas := None |} in
+  let evs := [EvGet 7 0; EvPut 7 1 None false; EvPut 9 2 (Some m1) false; EvPut 9 3 (Some m2) false;
+              EvTick [] [(7, false)]; EvTick [] [(9, true)]; EvTick [(9, OutOk)] []] in
+  crun cstate0 evs =
+    (cstate0, [OPut 3 (OutErr (EConcurrency NotMostRecent)); OGet 0; OPut 1 (OutErr ENoClosestNodes); OPut 2 OutOk]).
+Proof. vm_compute. reflexivity. Qed.
+
 Print Assumptions C06_lookup_done_after_timeout.
 Print Assumptions C06_answered_request_not_inflight.
 Print Assumptions C06_put_store_phase_terminates.
 Print Assumptions C06_put_without_tokens_fails.
+Print Assumptions C06_bookkeeping_invariant.
+Print Assumptions C06_at_most_one_outcome.
+Print Assumptions C06_exactly_one_outcome_when_quiet.
+Print Assumptions C06_quiescent_nobody_parked.
+Print Assumptions C06_tick_tells_get_callers.
+Print Assumptions C06_tick_tells_put_callers.
+Print Assumptions C06_waiting_put_starts_or_fails.
+Print Assumptions C06_no_lookup_all_puts_started.
+Print Assumptions C06_put_told_or_parked.
+Print Assumptions C06_get_parks_on_active_lookup.
+Print Assumptions C06_checked_invariant_is_the_invariant.
+Print Assumptions C06_history_example.
